@@ -147,6 +147,9 @@ class Cfg:
         self.cf_name = cf_name
         self.p_unsigned = p_unsigned     # store P as the unsigned number (seen in the wild, issue 186)
         self.overrides: Dict[str, Any] = {}   # entries forced into the Encrypt dictionary (error-path cases)
+        # /Length as spelled in the Encrypt dictionary of a V >= 4 document.  ISO 32000-1 Table 20: Length is
+        # meaningful "only if V is 2 or 3" - a reader must ignore it (pdfminer: init_params forces 128 / 256).
+        self.dict_length: Optional[int] = None
         # filled in by derive()
         self.key = b""
         self.O = self.U = self.OE = self.UE = self.Perms = b""
@@ -165,7 +168,7 @@ class Cfg:
                 "id0": self.id0.hex(), "have_id": self.have_id, "user": [ord(c) for c in self.user],
                 "owner": [ord(c) for c in self.owner], "encrypt_metadata": self.encrypt_metadata,
                 "length_key": self.length_key, "cf_name": self.cf_name, "p_unsigned": self.p_unsigned,
-                "overrides": self.overrides}
+                "overrides": self.overrides, "dict_length": self.dict_length}
 
     @staticmethod
     def from_json(j: Dict[str, Any]) -> "Cfg":
@@ -174,6 +177,7 @@ class Cfg:
                 j["encrypt_metadata"], j["have_id"], j["length_key"], j.get("cf_name", "StdCF"),
                 j.get("p_unsigned", False))
         c.overrides = dict(j.get("overrides", {}))
+        c.dict_length = j.get("dict_length")
         return c
 
 
@@ -301,7 +305,7 @@ def encrypt_dict(cfg: Cfg) -> Dict[str, Any]:
                          "O": W.HexStr(cfg.O), "U": W.HexStr(cfg.U),
                          "P": (cfg.P & 0xFFFFFFFF) if cfg.p_unsigned else cfg.P}
     if cfg.length_key:
-        d["Length"] = cfg.length
+        d["Length"] = cfg.dict_length if (cfg.dict_length is not None and cfg.V >= 4) else cfg.length
     if cfg.V >= 4:
         cfm = {"RC4": "V2", "AESV2": "AESV2", "AESV3": "AESV3"}.get(cfg.method)
         if cfg.method == "Identity":
